@@ -1,10 +1,10 @@
 package props
 
 import (
-	"log/slog"
 	"context"
 	"errors"
 	"fmt"
+	"log/slog"
 	"os"
 	"path/filepath"
 	"sync/atomic"
@@ -377,9 +377,9 @@ func init() {
 		},
 		Kinds: map[string]core.RunFunc{
 			"runverdict": c08RunVerdict,
-			"grid":   c08Grid,
-			"seeded": c08Seeded,
-			"cli":    c08CLI,
+			"grid":       c08Grid,
+			"seeded":     c08Seeded,
+			"cli":        c08CLI,
 		},
 		Floors: map[string]int64{"evaluations": 50000, "decided_by_tolerance": 10000, "cli_runs": 10},
 	})
